@@ -18,13 +18,25 @@ def run(ctx):
     lines = open(obs).read().splitlines()
     for i, line in enumerate(lines):
         d = json.loads(line)
-        conds[d["cond"]] = conds.get(d["cond"], 0) + 1
+        key = d["cond"] if d["t"] == "c07" else "gated-pipelining:" + d["variant"]
+        conds[key] = conds.get(key, 0) + 1
         if i % 29 == 0 and len(samples) < 4:
             samples.append(d)
+    gated_unproduced = 0
     for (ln, text, why) in res["rejections"]:
         d = json.loads(text)
+        if d["t"] == "c07p":
+            if d["fault"] or not (d["supervisor_parked"] and d["commit_in_window"]):
+                gated_unproduced += 1      # the interleaving could not be produced: nothing was observed
+                continue
+            sig = "c07:gated-pipelining:%s:rejects%d:delivered%d" % (d["variant"], d["rejects"], d["delivered"])
+            ctx.violation("data pipelined behind Select.req was not delivered when the commit landed inside a supervisor step (%s): %s" % (sig, common.short(d, 400)),
+                          dict(binding="B2 gated (sup.step.loaded / sup.commit.cas) + prop/Gate", signature=sig, observation=d))
+            continue
         sig = "c07:%s:%s:%s:%s:drop%+d:peer%d" % (d["role"], d["cond"], d["op"], d["err"][:20], d["drop_delta"], d["peer_data"])
         ctx.violation("send gate violated: %s" % sig, dict(binding="B2 + prop/Gate", signature=sig, observation=d))
+    if gated_unproduced > 3:
+        raise common.Inconclusive("the gated pipelining interleaving could not be produced in %d scenarios" % gated_unproduced)
     # receive half + pipelining through the HsmsSS transducer
     obs2 = os.path.join(ctx.tmp, "c07_pipe.ndjson")
     p = ctx.run_vh(["c08", "--pipeline", "--seed", ctx.seed, "--out", obs2, "--workers", 6], timeout=1500)
@@ -48,12 +60,14 @@ def selftest(ctx):
     obs = os.path.join(ctx.tmp, "c07_obs.ndjson")
     ctx.run_vh(["c07", "--out", obs], timeout=600)
     lines = open(obs).read().splitlines()
-    i1 = next(i for i, l in enumerate(lines) if json.loads(l)["cond"] == "deselected")
+    i1 = next(i for i, l in enumerate(lines) if json.loads(l).get("cond") == "deselected")
     d = json.loads(lines[i1]); d["drop_delta"] = 2; lines[i1] = json.dumps(d)
-    i2 = next(i for i, l in enumerate(lines) if json.loads(l)["cond"] == "closed")
+    i2 = next(i for i, l in enumerate(lines) if json.loads(l).get("cond") == "closed")
     d = json.loads(lines[i2]); d["err"] = "closed"; lines[i2] = json.dumps(d)
+    i3 = next(i for i, l in enumerate(lines) if '"c07p"' in l)
+    d = json.loads(lines[i3]); d["rejects"], d["delivered"] = 1, 1; lines[i3] = json.dumps(d)
     open(obs, "w").write("\n".join(lines) + "\n")
     res = common.oracle_pass(ctx, obs, "OracleGate", nchunks=1)
     got = sorted(r[0] for r in res["rejections"])
-    common.log("rejected:", got, "expected", [i1 + 1, i2 + 1])
-    return got == sorted([i1 + 1, i2 + 1])
+    common.log("rejected:", got, "expected", [i1 + 1, i2 + 1, i3 + 1])
+    return got == sorted([i1 + 1, i2 + 1, i3 + 1])
